@@ -535,6 +535,8 @@ parse_dauth_params (const char *str,
           {
             if (0 == str[i])
               return false;  /* Binary zero in parameter value */
+            if ('"' == str[i])
+              return false;  /* Quotation mark inside unquoted value */
             i++;
           }
           if (';' == str[i])
